@@ -14,6 +14,8 @@ package main
 import (
 	"encoding/json"
 	"os"
+	"runtime/debug"
+	"runtime/pprof"
 
 	"verif/harness/internal/h"
 )
@@ -24,6 +26,12 @@ type anyScenario struct {
 
 func main() {
 	r := h.Init("C16")
+	debug.SetGCPercent(600) // thousands of short-lived in-memory worlds: collect less often
+	if pf := os.Getenv("C16_PROF"); pf != "" {
+		f, _ := os.Create(pf)
+		_ = pprof.StartCPUProfile(f)
+		defer pprof.StopCPUProfile()
+	}
 	r.Imports = []string{"GU.C16.Model"}
 	r.Rule("both cache kinds x 1..3 stored versions (packages of 1..3 backend writes) x a fault (error / short write / crash / crash with partial write) at every backend operation of a Store or Fetch, followed by fresh-client CleanEntry, Fetch, Store, Fetch; " +
 		"2..4 concurrent immutable-cache clients under a seeded operation-level schedule; mutable-cache holders paused inside the critical section with contenders timing out; " +
